@@ -182,13 +182,17 @@ func (s *LinearState) Add(ctx *Context, id string, x Map) (string, error) {
 		}
 	}
 
+	// The storage write and the memory update are one critical
+	// section: otherwise two overlapping writes to one id could
+	// reach storage in one order and memory in the other.
+	s.slock(ctx, false)
+	defer s.sunlock(ctx, false)
+
 	pair := &Pair{[]byte(id), bs}
 	if err = s.store.Add(ctx, s.Name, pair); err != nil {
 		return id, err
 	}
 
-	// Maybe protect the store (above), too.
-	s.slock(ctx, false)
 	if _, isRule := m["rule"]; isRule {
 		if _, have := s.Facts[id]; have {
 			// Hope we're really replacing a rule.
@@ -196,7 +200,6 @@ func (s *LinearState) Add(ctx *Context, id string, x Map) (string, error) {
 		}
 	}
 	s.Facts[id] = RawFact{m, bs}
-	s.sunlock(ctx, false)
 
 	return id, nil
 }
@@ -224,16 +227,16 @@ func (s *LinearState) Rem(ctx *Context, id string) (bool, error) {
 func (s *LinearState) rem(ctx *Context, id string, lock bool) (bool, error) {
 	Log(DEBUG, ctx, "LinearState.rem", "id", id)
 	s.cachedRules.drop(id)
+	// The storage write and the memory update are one critical section.
+	if lock {
+		s.slock(ctx, false)
+		defer s.sunlock(ctx, false)
+	}
 	_, err := s.store.Remove(ctx, s.Name, []byte(id))
 	// ToDo: Consider what's returned.
 	if err != nil {
 		Log(ERROR, ctx, "LinearState.rem", "id", id, "error", err)
 		return false, err
-	}
-	// Maybe protect the store (above), too.
-	if lock {
-		s.slock(ctx, false)
-		defer s.sunlock(ctx, false)
 	}
 	_, had := s.Facts[id]
 	if had {
@@ -459,9 +462,9 @@ func (s *LinearState) FindCachedRules(ctx *Context, event Map) (map[string]*Rule
 
 func (s *LinearState) Clear(ctx *Context) error {
 	Log(INFO, ctx, "LinearState.Clear", "name", s.Name)
-	_, err := s.store.Clear(ctx, s.Name)
-	// Maybe protect the store (above), too.
+	// The storage write and the memory update are one critical section.
 	s.slock(ctx, false)
+	_, err := s.store.Clear(ctx, s.Name)
 	s.Facts = make(map[string]RawFact)
 	s.cachedRules.clear()
 	s.sunlock(ctx, false)
@@ -470,9 +473,9 @@ func (s *LinearState) Clear(ctx *Context) error {
 
 func (s *LinearState) Delete(ctx *Context) error {
 	Log(DEBUG, ctx, "LinearState.Delete", "name", s.Name)
-	err := s.store.Delete(ctx, s.Name)
-	// Maybe protect the store (above), too.
+	// The storage write and the memory update are one critical section.
 	s.slock(ctx, false)
+	err := s.store.Delete(ctx, s.Name)
 	s.Facts = make(map[string]RawFact)
 	s.cachedRules.clear()
 	s.sunlock(ctx, false)
